@@ -52,9 +52,12 @@ PropC01(e) == e.ev = "rt" =>
    /\ e.same2 /\ e.psame2                                     \* encoding again gives the same bytes
 
 \* ------------------------------------------------------------------ C02: the bytes are the E5 / E37 encoding
-PropC02(e) == e.ev \in {"rt", "enc"} =>
-   /\ HasVars(e.msg.item) \/ ValuesOK(e.msg.item)
-   /\ e.bytes = ExpectedBytes(e.msg)
+PropC02(e) ==
+   /\ e.ev \in {"rt", "enc"} =>
+        /\ HasVars(e.msg.item) \/ ValuesOK(e.msg.item)
+        /\ e.bytes = ExpectedBytes(e.msg)
+   \* a message that came out of the decoder - whatever spelling its input had - encodes like any other
+   /\ (e.ev = "dec" /\ e.ok /\ e.msg2.kind = "data") => (Bytes2(e) = ExpectedBytes(e.msg2) /\ PBytes2(e) = Bytes2(e))
 
 \* TLC -> Go replay: the case was built from the specification's message `want`; the real object must be
 \* that message and its bytes must be the bytes the specification computed for it
@@ -210,11 +213,16 @@ AgreeDecoder(e) == e.ev \in {"rt", "dec"} =>
 
 \* C13, several items of different length-byte classes in one message: each header the encoder wrote is the
 \* specification's, and the decoder read exactly that length for it, whatever came before
+RECURSIVE SumLen(_, _)
+SumLen(kids, i) == IF i > Len(kids) THEN 0
+                   ELSE LET c == CodeOf(kids[i].f) IN Len(ItemHeader(c, kids[i].n)) + kids[i].n * Width(c) + SumLen(kids, i + 1)
 PropSeq(e) == e.ev = "bigseq" =>
    /\ e.ok /\ e.same
-   /\ Len(e.hdrs) = Len(e.kids) + 1
-   /\ e.hdrs[1].raw = ItemHeader(0, Len(e.kids)) /\ e.hdrs[1].len = Len(e.kids)
-   /\ \A i \in 1..Len(e.kids) : LET k == e.kids[i]  c == CodeOf(k.f)  h == e.hdrs[i + 1] IN
+   /\ Len(e.hdrs) = Len(e.kids) + 1 + e.wrap
+   /\ \A i \in 1..e.wrap : e.hdrs[i].raw = <<1, 1>> /\ e.hdrs[i].len = 1      \* the enclosing one-element lists
+   /\ e.hdrs[e.wrap + 1].raw = ItemHeader(0, Len(e.kids)) /\ e.hdrs[e.wrap + 1].len = Len(e.kids)
+   /\ e.msglen = 14 + 2 * e.wrap + Len(ItemHeader(0, Len(e.kids))) + SumLen(e.kids, 1)     \* nothing dropped, nothing added
+   /\ \A i \in 1..Len(e.kids) : LET k == e.kids[i]  c == CodeOf(k.f)  h == e.hdrs[e.wrap + i + 1] IN
           /\ h.raw = ItemHeader(c, k.n)
           /\ h.nl = Len(h.raw) - 1
           /\ h.code = c
